@@ -8,7 +8,6 @@ import (
 	"io"
 	"strings"
 
-
 	"verif/engine/core"
 )
 
